@@ -695,3 +695,91 @@ package ro
 //@ loop Interval$1$1#0
 //@   iteration ensures count(chselect) == 1 && count(destination.NextWithContext) <= 1 && before(chselect, destination.NextWithContext)
 //@   iteration ensures called(destination.NextWithContext) ==> arg(destination.NextWithContext, 0) == ctx && arg(destination.NextWithContext, 1) == value
+
+// ---------------------------------------------------------------------------
+// second batch: remaining single-source operators
+// ---------------------------------------------------------------------------
+
+//@ operator Pairwise
+//@   props C04
+//@   ghost n int = 0
+//@   ghost prev val = nil
+//@   inv count == n && n >= 0
+//@   inv n > 0 ==> last == prev
+//@   on next(ctx, value) when n > 0 : emits Next(ctx, elems(prev, value)) ; n' = n + 1 ; prev' = value
+//@   on next(ctx, value) when n <= 0 : emits ; n' = n + 1 ; prev' = value
+
+//@ operator EndWith
+//@   props C04 C09
+//@   on next(ctx, value) : emits Next(ctx, value)
+//@   on complete(ctx) : emits loop.L0, Complete(ctx)
+
+//@ loop EndWith$1$1$1#0
+//@   noexit
+//@   invariant 0 <= it && it <= len(ranged)
+//@   invariant ranged == suffixes
+//@   iteration emits destination.NextWithContext(ctx, ranged[it])
+
+//@ operator ContextReset
+//@   props C04 C09
+//@   requires newCtx != nil
+//@   on next(ctx, value) : emits Next(newCtx, value)
+//@   on error(ctx, err) : emits Error(newCtx, err)
+//@   on complete(ctx) : emits Complete(newCtx)
+
+//@ operator ToMapIWithContext
+//@   props C04
+//@   ghost n int = 0
+//@   inv i == n
+//@   on next(ctx, value) : emits ; n' = n + 1
+//@   on complete(ctx) : emits Next(ctx, output), Complete(ctx)
+
+//@ operator Distinct
+//@   props C04
+//@   on next(ctx, value) when !has(seen, value) : emits Next(ctx, value) ; post keysadded(seen, value)
+//@   on next(ctx, value) when has(seen, value) : emits ; post mapsame(seen)
+
+//@ operator DistinctByWithContext
+//@   props C04 C09
+//@   on next(ctx, value) when !has(seen, keySelector_1(ctx, value)) : emits Next(keySelector_0(ctx, value), value) ; post keysadded(seen, keySelector_1(ctx, value))
+//@   on next(ctx, value) when has(seen, keySelector_1(ctx, value)) : emits ; post mapsame(seen)
+
+//@ operator TakeLast
+//@   props C04 C09
+//@   note the sliding buffer is the machine state: it holds the last min(index, count) (context, value) pairs in arrival order
+//@   requires count >= 1
+//@   inv index >= 0
+//@   inv index <= count ==> len(buffer) == index
+//@   inv index > count ==> len(buffer) == count
+//@   inv forall(j, 0, len(buffer), buffer[j].A != nil)
+//@   on next(ctx, value) when index < count : emits ; post len(buffer') == len(buffer) + 1 && buffer'[len(buffer)].A == ctx && buffer'[len(buffer)].B == value && forall(j, 0, len(buffer), buffer'[j] == buffer[j])
+//@   on next(ctx, value) when index >= count : emits ; post len(buffer') == count && buffer'[count - 1].A == ctx && buffer'[count - 1].B == value && forall(j, 0, count - 1, buffer'[j] == buffer[j + 1])
+//@   on complete(ctx) : emits loop.L0, Complete(ctx)
+
+//@ loop TakeLast$1$1$2#0
+//@   noexit
+//@   invariant 0 <= i && i <= len(buffer)
+//@   exit i == len(buffer)
+//@   iteration emits destination.NextWithContext(buffer[i].A, buffer[i].B)
+
+//@ operator StartWith
+//@   props C04 C09
+//@   note the prefixes are delivered first, in order; then the source is subscribed with the downstream observer itself
+//@   track source.SubscribeWithContext
+//@   on subscribe(ctx, destination) : emits loop.L0, source.SubscribeWithContext(ctx, destination)
+
+//@ loop StartWith$1$1#0
+//@   noexit
+//@   invariant 0 <= it && it <= len(ranged)
+//@   invariant ranged == prefixes
+//@   iteration emits destination.NextWithContext(subscriberCtx, ranged[it])
+
+//@ operator TapOnSubscribeWithContext
+//@   props C04 C09
+//@   track source.SubscribeWithContext callfn.onSubscribe
+//@   on subscribe(ctx, destination) : emits callfn.onSubscribe(ctx), source.SubscribeWithContext(ctx, destination)
+
+//@ operator TapOnFinalize
+//@   props C04 C03
+//@   track source.SubscribeWithContext
+//@   on subscribe(ctx, destination) : emits source.SubscribeWithContext(ctx, destination)
